@@ -1,6 +1,6 @@
 use std::collections::HashMap;
 
-use crate::ast::{Choice, Condition, Expression, Flow, Node, ParsedStory};
+use crate::ast::{Choice, Condition, Divert, Expression, Flow, Node, ParsedStory};
 
 pub(crate) fn resolve(mut story: ParsedStory) -> ParsedStory {
     if story.consts.is_empty() {
@@ -55,6 +55,12 @@ fn resolve_nodes(nodes: &mut [Node], consts: &HashMap<String, Expression>) {
             Node::Assignment { expression, .. } => resolve_expression(expression, consts),
             Node::Choice(choice) => resolve_choice(choice, consts),
             Node::VoidCall { args, .. }
+            | Node::Divert(Divert {
+                arguments: args, ..
+            })
+            | Node::ThreadDivert(Divert {
+                arguments: args, ..
+            })
             | Node::TunnelDivert { args, .. }
             | Node::TunnelOnwardsWithTarget { args, .. } => {
                 for argument in args {
